@@ -158,7 +158,7 @@ def check(R, F):
     fns = [F.fn(g) for g in FNS + PUBS]
     n = e5.run_sites(R, F, fns, 'totality', exceptions=EXCEPTIONS, S=S)
     R.floor('totality', 25, 'panic-capable sites counted in name/wire.rs')
-    e5.check_pres(R, F, S, 'totality.pre')
+    e5.check_pres(R, F, S, 'totality.pre', only=('name::wire::parse_pointer',))
     R.floor('totality.pre', 1)
     namewire.check_all(R, F, S, 'summary')
     R.floor('summary', 12)
